@@ -304,6 +304,9 @@ pub fn property() -> Property {
         },
         hang_is_violation: true,
         hang_limit_s: 900,
-        probes: vec![],
+        probes: match read_replay("/verif/known/C06-dual-token-lockstep.json") {
+            Ok((_, _, data)) => vec![KnownProbe { signature: "dual-token-lockstep", kind: "recovery", data }],
+            Err(_) => vec![],
+        },
     }
 }
